@@ -488,7 +488,7 @@ class Facts:
         return a
 
     def closures_of(self, key):
-        return [f for f in self.fns.values() if f.d.get("closure_of") == key]
+        return [f for f in self.fns.values() if f.d.get("closure_of") == key or key in f.d.get("closure_of_also", ())]
 
     def callers_of(self, key):
         out = []
